@@ -30,7 +30,7 @@ func init() {
 		},
 		Cases: func(tier, mode string) int {
 			if tier == "thorough" {
-				return len(pairs) * 600
+				return len(pairs) * 6000
 			}
 			return len(pairs) * 40
 		},
